@@ -235,6 +235,18 @@ def walk(h, on_block_end=None, on_block_begin=None):
             yield o
             if not o.trial:
                 apply_diff(state, o.diff)
+        elif k == "lab_packet":
+            o = TxObs()
+            o.hist, o.height, o.trial, o.where = h.key, e["height"], False, "packet"
+            o.result, o.events, o.diff = e["result"], e.get("events") or [], e.get("diff") or {}
+            o.tx, o.id, o.signer, o.nonce = {"packet": e["packet"], "applied": e["applied"], "actions": [], "intent": "packet"}, None, None, None
+            o.pre = state
+            yield o
+            if e["applied"]:
+                apply_diff(state, o.diff)
+                for key in [x for x in state if x.startswith("~")]:
+                    del state[key]
+            apply_diff(state, e["commit_diff"])
         elif k == "lab_end":
             if on_block_end:
                 on_block_end(e["height"], state, e["end_diff"], e["commit_diff"], e)
@@ -318,3 +330,18 @@ def actual_effects(diff):
         elif c[0] == "eph_fee":
             d[("~fees", c[1])] = (int(new) if new else 0) - (int(old) if old else 0)
     return {k: v for k, v in d.items() if v != 0}
+
+
+def ibc_id(trace):
+    import hashlib
+    return "ibc/" + hashlib.sha256(trace.encode()).hexdigest()
+
+
+def trace_of(state_or_universe_assets, denom):
+    """trace form of a denom that may be spelled ibc/<hex>: looked up in the list of (trace, ibc) pairs"""
+    if not denom.startswith("ibc/"):
+        return denom
+    for t, i in state_or_universe_assets:
+        if i == denom:
+            return t
+    return None
